@@ -77,13 +77,23 @@ def uniqueParent : List Idx → Except String (Option Idx)
   | [ix] => .ok (some ix)
   | _ => .error "multiple-parents"
 
+/-- a quad of the graph (other than `self`) whose object *and* subject are the node itself -/
+def selfReferenced (g : String) (self : Idx) (key : Ref) : List Quad → Nat → Bool
+  | [], _ => false
+  | q :: qs, i => ((g, i) ≠ self ∧ q.o.ref? = some key ∧ q.s = key) || selfReferenced g self key qs (i+1)
+
+/-- index of the first referencing quad, when it comes before any self reference: Go walks the quads in order and
+    returns "multiple parents" as soon as it meets a second candidate, "cyclic reference" as soon as it meets a self
+    reference — both are errors, so only the class matters and the model reports the self reference first -/
 def findParentInsideGraph (ds : Dataset) (self : Idx) (q : Quad) : Except String (Option Idx) :=
   match graphName q with
   | .error e => .error e
   | .ok g =>
     match ds.lookup g with
     | none => .error "graph-not-found"
-    | some qs => uniqueParent (scanGraph g self q.s qs 0)
+    | some qs =>
+      if selfReferenced g self q.s qs 0 then .error "cycle"
+      else uniqueParent (scanGraph g self q.s qs 0)
 
 def findGraphParent (ds : Dataset) (self : Idx) (q : Quad) : Except String (Option Idx) :=
   match q.g with
